@@ -198,6 +198,10 @@ def explore_c07(ctx, res, replay_ops=None):
             continue
         before = render()
         res.evaluations += 1
+        if len(t) == 12 and t[11].startswith("e"):
+            # a chosen End-to-End Identifier (a client may reuse one): what the server must do does not depend on it
+            res.dist["end-to-end-id:chosen"] += 1
+            t = t[:11]
         rsu, usu = int(t[9]), int(t[10])
         in_domain = rsu < 2 ** 63 and usu < 2 ** 63
         act, ty = int(t[5].rstrip("-")), int(t[3])
